@@ -363,6 +363,13 @@ def life_oracle(run, s, obs, props):
                     want = True
                 if want is not None and ann != [want]:
                     run.violation('announce-missing prop=%d %s' % (s['prop_exit'], key), 'expected announcement error=%s, got %s' % (want, ann), case)
+                # a filter that stops because it OBEYED a neighbour's error exit passes the ERROR on (never a clean exit, and
+                # nothing at all only if its own policy does not propagate errors): the error must travel more than one hop
+                if o_ == 'prop' and s['loop_exc']:
+                    want_p = [True] if s['prop_exit'] & 2 else []
+                    if ann != want_p:
+                        run.violation('announce-obeyed-error prop=%d got=%s %s' % (s['prop_exit'], ann, key),
+                                      'the filter ended by obeying an error exit; expected announcements %s (error=True), got %s' % (want_p, ann), case)
     if 'C18' in props and obs['events']:
         ev = [e for e, _ in obs['events']]
         ids = {i for _, i in obs['events']}
